@@ -125,13 +125,13 @@ func pairID(p asset.Pair) int {
 	return -1
 }
 
-func runCase(t *testing.T, in Input) (Obs, error) {
-	var obs Obs
+// prepare builds the fixture: validators, staking situation, oracle params, whitelist.
+func prepare(t *testing.T, in Input) (okeeper.TestFixture, sdk.Context, error) {
 	f := okeeper.CreateTestFixture(t)
 	ctx := f.Ctx
 	sh := stakingkeeper.NewMsgServerImpl(&f.StakingKeeper)
 	if len(in.Vals) > len(pubKeys) {
-		return obs, fmt.Errorf("too many validators")
+		return f, ctx, fmt.Errorf("too many validators")
 	}
 	create := func(i int) error {
 		amt := sdkmath.NewIntFromBigInt(bigOf(in.Vals[i].Tok))
@@ -144,7 +144,7 @@ func runCase(t *testing.T, in Input) (Obs, error) {
 	for i, v := range in.Vals {
 		if !v.Late {
 			if err := create(i); err != nil {
-				return obs, err
+				return f, ctx, err
 			}
 		}
 	}
@@ -152,7 +152,7 @@ func runCase(t *testing.T, in Input) (Obs, error) {
 	for i, v := range in.Vals {
 		if v.Late {
 			if err := create(i); err != nil {
-				return obs, err
+				return f, ctx, err
 			}
 		}
 	}
@@ -174,7 +174,7 @@ func runCase(t *testing.T, in Input) (Obs, error) {
 		sp := f.StakingKeeper.GetParams(ctx)
 		sp.MaxValidators = in.MaxV
 		if err := f.StakingKeeper.SetParams(ctx, sp); err != nil {
-			return obs, err
+			return f, ctx, err
 		}
 	}
 
@@ -191,7 +191,7 @@ func runCase(t *testing.T, in Input) (Obs, error) {
 		p.Whitelist = append(p.Whitelist, pairs[w])
 	}
 	if err := p.Validate(); err != nil {
-		return obs, fmt.Errorf("params rejected: %w", err)
+		return f, ctx, fmt.Errorf("params rejected: %w", err)
 	}
 	f.OracleKeeper.Params.Set(ctx, p)
 	for _, k := range f.OracleKeeper.WhitelistedPairs.Iterate(ctx, collections.Range[asset.Pair]{}).Keys() {
@@ -200,7 +200,11 @@ func runCase(t *testing.T, in Input) (Obs, error) {
 	for _, w := range in.WL {
 		f.OracleKeeper.WhitelistedPairs.Insert(ctx, pairs[w])
 	}
-	for _, v := range in.Votes {
+	return f, ctx, nil
+}
+
+func insertVotes(f okeeper.TestFixture, ctx sdk.Context, votes []Vote) {
+	for _, v := range votes {
 		va := sdk.ValAddress(accAddr(v.Voter))
 		var ts otypes.ExchangeRateTuples
 		for _, tu := range v.T {
@@ -208,18 +212,17 @@ func runCase(t *testing.T, in Input) (Obs, error) {
 		}
 		f.OracleKeeper.Votes.Insert(ctx, va, otypes.NewAggregateExchangeRateVote(ts, va))
 	}
-	for _, r := range in.Rates {
-		f.OracleKeeper.ExchangeRates.Insert(ctx, pairs[r.P], otypes.ExchangeRateAtBlock{
-			ExchangeRate: decOfRaw(r.R), CreatedBlock: r.C, BlockTimestampMs: 0})
-	}
+}
 
-	// staking state as seen through the staking keeper API
+// readPre reads the staking state as the oracle keeper sees it through the staking keeper API.
+func readPre(f okeeper.TestFixture, ctx sdk.Context, nvals int) Pre {
+	var pre Pre
 	ids := map[string]int{}
-	for i := range in.Vals {
+	for i := 0; i < nvals; i++ {
 		ids[sdk.ValAddress(accAddr(i)).String()] = i
 	}
 	pr := f.StakingKeeper.PowerReduction(ctx)
-	obs.Pre.Order = []PreVal{}
+	pre.Order = []PreVal{}
 	it := f.StakingKeeper.ValidatorsPowerStoreIterator(ctx)
 	for ; it.Valid(); it.Next() {
 		v := f.StakingKeeper.Validator(ctx, it.Value())
@@ -227,26 +230,23 @@ func runCase(t *testing.T, in Input) (Obs, error) {
 		if !ok {
 			id = 99
 		}
-		obs.Pre.Order = append(obs.Pre.Order, PreVal{ID: id, Bonded: v.IsBonded(),
-			Power: fmt.Sprint(v.GetConsensusPower(pr))})
+		pre.Order = append(pre.Order, PreVal{ID: id, Bonded: v.IsBonded(), Power: fmt.Sprint(v.GetConsensusPower(pr))})
 	}
 	it.Close()
-	obs.Pre.BTok = f.StakingKeeper.TotalBondedTokens(ctx).String()
-	obs.Pre.MaxV = f.StakingKeeper.MaxValidators(ctx)
-	obs.Pre.PR = pr.String()
+	pre.BTok = f.StakingKeeper.TotalBondedTokens(ctx).String()
+	pre.MaxV = f.StakingKeeper.MaxValidators(ctx)
+	pre.PR = pr.String()
+	return pre
+}
 
-	ctx2 := ctx.WithBlockHeight(in.H).WithEventManager(sdk.NewEventManager())
-	pan := Recover(func() { oracle.EndBlocker(ctx2, f.OracleKeeper) })
-	if pan != "" {
-		obs.Panic = true
-		return obs, nil
+// readRatesEvents reads the ExchangeRates store and the EventPriceUpdate events of ctx.
+func readRatesEvents(f okeeper.TestFixture, ctx sdk.Context) ([]Rate, []Tuple, error) {
+	rates := []Rate{}
+	for _, kv := range f.OracleKeeper.ExchangeRates.Iterate(ctx, collections.Range[asset.Pair]{}).KeyValues() {
+		rates = append(rates, Rate{P: pairID(kv.Key), R: kv.Value.ExchangeRate.BigInt().String(), C: kv.Value.CreatedBlock})
 	}
-	obs.Rates = []Rate{}
-	for _, kv := range f.OracleKeeper.ExchangeRates.Iterate(ctx2, collections.Range[asset.Pair]{}).KeyValues() {
-		obs.Rates = append(obs.Rates, Rate{P: pairID(kv.Key), R: kv.Value.ExchangeRate.BigInt().String(), C: kv.Value.CreatedBlock})
-	}
-	obs.Events = []Tuple{}
-	for _, ev := range ctx2.EventManager().Events() {
+	events := []Tuple{}
+	for _, ev := range ctx.EventManager().Events() {
 		if ev.Type != "nibiru.oracle.v1.EventPriceUpdate" {
 			continue
 		}
@@ -259,14 +259,36 @@ func runCase(t *testing.T, in Input) (Obs, error) {
 			case "price":
 				d, err := sdkmath.LegacyNewDecFromStr(val)
 				if err != nil {
-					return obs, fmt.Errorf("event price %q: %w", val, err)
+					return nil, nil, fmt.Errorf("event price %q: %w", val, err)
 				}
 				tu.R = d.BigInt().String()
 			}
 		}
-		obs.Events = append(obs.Events, tu)
+		events = append(events, tu)
 	}
-	return obs, nil
+	return rates, events, nil
+}
+
+func runCase(t *testing.T, in Input) (Obs, error) {
+	var obs Obs
+	f, ctx, err := prepare(t, in)
+	if err != nil {
+		return obs, err
+	}
+	insertVotes(f, ctx, in.Votes)
+	for _, r := range in.Rates {
+		f.OracleKeeper.ExchangeRates.Insert(ctx, pairs[r.P], otypes.ExchangeRateAtBlock{
+			ExchangeRate: decOfRaw(r.R), CreatedBlock: r.C, BlockTimestampMs: 0})
+	}
+	obs.Pre = readPre(f, ctx, len(in.Vals))
+	ctx2 := ctx.WithBlockHeight(in.H).WithEventManager(sdk.NewEventManager())
+	pan := Recover(func() { oracle.EndBlocker(ctx2, f.OracleKeeper) })
+	if pan != "" {
+		obs.Panic = true
+		return obs, nil
+	}
+	obs.Rates, obs.Events, err = readRatesEvents(f, ctx2)
+	return obs, err
 }
 
 // ---------------------------------------------------------------- generation
@@ -561,6 +583,13 @@ func TestC10(t *testing.T) {
 	}
 	if cfg.Replay != "" {
 		for _, raw := range cfg.ReplayInputs(t) {
+			var probe struct {
+				Kind string `json:"kind"`
+			}
+			_ = json.Unmarshal(raw, &probe)
+			if probe.Kind == "hist" {
+				continue
+			}
 			var in Input
 			if err := json.Unmarshal(raw, &in); err != nil {
 				t.Fatalf("replay input: %v", err)
